@@ -99,7 +99,9 @@ def trash_dirs(sb, world):
                     "blocked": blocked(m + b"/.Trash-%d" % uid)})
     if opts.get("trashDir"):
         c = canon(opts["trashDir"])
-        out.append({"dir": c, "base": _model(sb, dev_of(sb, world, c)), "kind": "custom", "parentOk": True,
+        # Paths in a --trash-dir are recorded relative to the volume of the directory AS SPELLED (textual ascent of the
+        # argument to a mount point: what trash-put, trash-list and trash-restore agree on); the spec is silent here
+        out.append({"dir": c, "base": _model(sb, dev_of(sb, world, os.path.normpath(raw(opts["trashDir"])))), "kind": "custom", "parentOk": True,
                     "blocked": blocked(opts["trashDir"])})
     return out
 
@@ -230,7 +232,11 @@ def evaluate(world, drv, plan=None, model_faults=None, oracles=("C01", "C04", "C
                                 for it, rep in zip(facts["items"], reported)]))
         res["oracle"]["C01"] = r
     if "C04" in oracles:
-        res["oracle"]["C04"] = drv.ask(dict(base, prop="C04", dirs=dirs))
+        # every directory that looks like a trash directory (holds files/ and info/), not only the candidates of this run:
+        # what was trashed anywhere before stays whole
+        look = sorted({hx(p_) for p_, v_ in before.items() if v_[0] == "d" and before.get(p_ + b"/files", ("",))[0] == "d"
+                       and before.get(p_ + b"/info", ("",))[0] == "d"} | set(dirs))
+        res["oracle"]["C04"] = drv.ask(dict(base, prop="C04", dirs=look))
     if "C16" in oracles and obs.get("exc") is None and isinstance(iexit, int):
         seen = set()
         items = []
@@ -358,6 +364,22 @@ def evaluate(world, drv, plan=None, model_faults=None, oracles=("C01", "C04", "C
             if not drv.ask({"op": "c03holds", "content": hx(content), "loc": hx(loc)})["r"]:
                 problems.append("not conformant: %r" % content[:200])
                 continue
+            # ... and it decodes back to the exact location of the entry it was written for (parent directory resolved,
+            # the entry itself not followed; relative to $topdir in a volume trash directory)
+            tdir_ = pth.rsplit(b"/info/", 1)[0]
+            stem_ = pth.rsplit(b"/", 1)[1][:-len(b".trashinfo")]
+            owners = [it for it in facts["items"] if it.get("entry") and not any(
+                m.get("spelling") == "symlink-dotdot" for m in world.get("meta", []))]
+            cands_ = [it for it in owners if os.path.basename(it["entry"]) == stem_ or
+                      re.fullmatch(re.escape(os.path.basename(it["entry"])) + rb"_\d+", stem_)]
+            bases_ = [d["base"] for d in facts["dirs"] if d["dir"] == tdir_]
+            if len(cands_) == 1 and len(bases_) == 1 and len(set(os.path.basename(it["entry"]) for it in owners)) == len(owners):
+                ent, base_ = cands_[0]["entry"], bases_[0]
+                want_ = ent
+                if base_ is not None and ent.startswith(base_.rstrip(b"/") + b"/"):
+                    want_ = ent[len(base_.rstrip(b"/")) + 1:]
+                if loc != want_:
+                    problems.append("Path of %r decodes to %r, the entry trashed is %r (recorded form %r)" % (pth, loc, ent, want_))
             created = [i for i, rec in enumerate(trace) if rec[0] == "createExcl" and rec[2] == "ok" and rec[1] and
                        bytes.fromhex(rec[1][0]) == pth]
             if not created:
